@@ -67,7 +67,17 @@ Definition embedded_ok (o : orders) (w : st * wop) : bool :=
 Definition orders_embedded (o : orders) : bool :=
   forallb (embedded_ok o) [wit_c1_root; wit_c1_link; wit_c2_root; wit_c2_link; wit_c3; wit_erase].
 
+(* the orders the sequential model was written against (= the ones embedded in its micro-steps); the lock-step driver
+   uses this record so that it does not depend on the generated file *)
+Definition c09_orders : orders :=
+  mk_orders Acquire Acquire Acquire Relaxed Release Release Relaxed Relaxed Relaxed Relaxed Release Release Release Release.
+
 (* the example of C10_orders_sufficient: the same record with a relaxed publish of a new root *)
 Definition weaken_c1_root (o : orders) : orders :=
   mk_orders (o_f_root o) (o_f_mask o) (o_f_link o) (o_c1_mask o) (o_c1_link o) Relaxed (o_c2_mask o) (o_c2_null o)
             (o_c2_lk o) (o_c2_ls o) (o_c2_link o) (o_c2_root o) (o_c3_mask o) (o_e_mask o).
+
+(* ... and with a relaxed mask store in erase *)
+Definition weaken_e_mask (o : orders) : orders :=
+  mk_orders (o_f_root o) (o_f_mask o) (o_f_link o) (o_c1_mask o) (o_c1_link o) (o_c1_root o) (o_c2_mask o) (o_c2_null o)
+            (o_c2_lk o) (o_c2_ls o) (o_c2_link o) (o_c2_root o) (o_c3_mask o) Relaxed.
